@@ -17,7 +17,8 @@ Ty == IF Depth = 1 THEN T1 \cup {Res(a, b) : a \in {L("unit"), L("prim"), L("zst
                                            b \in {L("unit"), L("enum"), L("opaque"), Ref(L("opaque")), Opt("std", Ref(L("opaque"))), L("str_std")}} ELSE IF Depth = 2 THEN T2 ELSE T3
 
 HasKind(t, K) == Mentions(t, K)
-SelfTypes == {Ref(L("opaque")), MutRef(L("opaque")), L("opaque"), L("struct"), Ref(L("struct")), L("outstruct"), L("enum")}
+SelfTypes == {Ref(L("opaque")), MutRef(L("opaque")), L("opaque"), L("struct"), Ref(L("struct")), MutRef(L("struct")), L("outstruct"), L("enum"),
+              Ref(L("enum")), MutRef(L("enum"))}
 \* the renderer can only produce Rust that rustc would parse/accept syntactically in that position
 InGrammar(p, t) ==
   /\ p = "self" => t \in SelfTypes
